@@ -146,7 +146,7 @@ func actorGc(s *scenario) {
 	r := s.rnd(3)
 	for i := 0; i < s.n/4+2; i++ {
 		if err := s.store.Gc(); err != nil {
-			vh.Fatal("Gc: %v", err)
+			noteFault("gc", err)
 		}
 		pause(r)
 	}
@@ -160,7 +160,7 @@ func actorReload(s *scenario) {
 		pause(r)
 		for _, m := range obj.Metrics {
 			if err := s.store.Add(m); err != nil {
-				vh.Fatal("Add: %v", err)
+				noteFault("reload", err)
 			}
 		}
 	}
@@ -171,7 +171,7 @@ func actorProm(s *scenario) {
 	r := s.rnd(5)
 	for i := 0; i < s.n/4+2; i++ {
 		if err := s.exp.Write(io.Discard); err != nil {
-			vh.Fatal("prometheus Write: %v", err)
+			noteFault("prom", err)
 		}
 		pause(r)
 	}
@@ -183,6 +183,17 @@ var (
 	panicMu sync.Mutex
 	panics  = map[string]int{}
 )
+
+// noteFault records an error returned by the real code to an actor (not a harness failure)
+func noteFault(actor string, err error) {
+	msg := err.Error()
+	if len(msg) > 160 {
+		msg = msg[:160]
+	}
+	panicMu.Lock()
+	panics[actor+": error: "+msg]++
+	panicMu.Unlock()
+}
 
 func notePanic(actor string) {
 	if r := recover(); r != nil {
@@ -231,9 +242,40 @@ var actors = map[string]func(*scenario){
 }
 
 type raceCase struct {
-	Group []string `json:"group"`
-	Iters int      `json:"iters"`
-	Incs  int      `json:"incs"`
+	Group  []string `json:"group"`
+	Iters  int      `json:"iters"`
+	Incs   int      `json:"incs"`
+	Hammer bool     `json:"hammer"`
+}
+
+// hammer: two VMs of one program increment the same datum as fast as they can; only the
+// totals are logged ("bulk a n": actor a completed n increments) and the final value.
+func hammer(n int, c *raceCase) {
+	s, cancel := newScenario(vh.Seed()*31+int64(n), c.Incs)
+	defer cancel()
+	var wg sync.WaitGroup
+	for _, a := range []string{"vm", "vm2"} {
+		wg.Add(1)
+		go func() {
+			defer wg.Done()
+			v := newVM(s)
+			for i := 0; i < c.Incs; i++ {
+				v.ProcessLogLine(s.ctx, line("inc a"))
+			}
+		}()
+		_ = a
+	}
+	wg.Wait()
+	final := int64(-1)
+	if m := s.store.FindMetricOrNil("total", "c11.mtail"); m != nil {
+		if d, err := m.GetDatum("a"); err == nil {
+			final = datum.GetInt(d)
+		}
+	}
+	vh.Out(event{Seq: 1, Ev: "bulk", A: "vm", V: int64(c.Incs)})
+	vh.Out(event{Seq: 2, Ev: "bulk", A: "vm2", V: int64(c.Incs)})
+	vh.Out(event{Seq: 3, Ev: "final", A: "harness", V: final})
+	vh.Out(map[string]any{"trace_end": true, "group": []string{"vm", "vm2"}, "incs": c.Incs, "events": 3})
 }
 
 func race() {
@@ -344,6 +386,10 @@ func atomicRun() {
 		var c raceCase
 		if err := json.Unmarshal(raw, &c); err != nil {
 			return err
+		}
+		if c.Hammer {
+			hammer(n, &c)
+			return nil
 		}
 		s, cancel := newScenario(seed*7919+int64(n), c.Incs)
 		defer cancel()
